@@ -225,6 +225,10 @@ def check_pairs_verdict(ver, cons_list, pairs, st):
             '<xs:any %s processContents="skip"/></xs:sequence></xs:complexType>'
             % (k, c1, k, k, c2, k, k, k, c1, k, c2, k, k, k, k, k, k, k, c2, k, k, k, k,
                k, c1, k, k, c2, k, k, k, k, k, c1, c2))
+        # the operands on their own, declared AFTER the combinations that use them
+        body.append('<xs:complexType name="IA%d"><xs:attributeGroup ref="t:ga%d"/></xs:complexType>'
+                    '<xs:element name="ia%d" type="t:IA%d"/><xs:complexType name="IB%d"><xs:attributeGroup '
+                    'ref="t:gb%d"/></xs:complexType><xs:element name="ib%d" type="t:IB%d"/>' % ((k,) * 8))
     s = cls(HEAD + ''.join(body) + '</xs:schema>', validation='lax')
     for k, (i, j) in enumerate(pairs):
         c1, c2 = cons_list[i], cons_list[j]
@@ -255,6 +259,13 @@ def check_pairs_verdict(ver, cons_list, pairs, st):
         if errs or got != (s1 & s2):
             out.append(rec('inter_verdict', ver, 'attr', [c1, c2], fmt(s1 & s2),
                            errs[0][:200] if errs else fmt(got)))
+        # the operands keep their own meaning after having been combined (no shared state between a wildcard and
+        # the copies made for union / intersection)
+        for en, sx, cx in (('ia%d', s1, c1), ('ib%d', s2, c2), ('b%d', s1, c1)):
+            st.case()
+            got = verdict_set(s, en % k, _inst_attr)
+            if got != sx and not errs and not _errors(ut):
+                out.append(rec('operand_changed_by_combination', ver, 'attr', [c1, c2], fmt(sx), fmt(got)))
         # restriction accepted => inclusion, both by the reference and by verdicts
         for wk, tn, en, bn, inst in (('attr', 'R%d', 'r%d', 'b%d', _inst_attr),
                                      ('elem', 'ER%d', 'er%d', 'eb%d', _inst_child)):
